@@ -95,7 +95,7 @@ class CompilerWorld:
                 n = len(e.path_state['nested'])
                 e.path_state['nested'].append(dict(kind=kind, at=at, pos=len(e.path_state['emitted'])))
                 e.path_state['emitted'].append(('chunk', kind, n))
-                if kind in ('block', 'decl', 'stmt'):
+                if kind in ('block', 'decl'):
                     # a block may declare locals in the current scope (symbolic count, bounded)
                     k = e.concretize(z3.BitVec(e.fresh_name('nlocals'), 64), None) if False else None
                     nl = z3.BitVec(e.fresh_name('nlocals'), 64)
